@@ -63,9 +63,6 @@ func VerifKey(prefix string, maps ...map[string]string) string {
 	return keyForPrefixedStringMaps(prefix, maps...)
 }
 
-// VerifIsClosed reports the closed flag of a scope.
-func VerifIsClosed(s Scope) bool { return s.(*scope).closed.Load() }
-
 // VerifShardOf returns the index of the registry shard that holds s (-1: not found, or the registry has another
 // shape in this tree). Read by reflection so that a reshaped registry still builds; call it at a quiet moment.
 func VerifShardOf(s Scope) int {
